@@ -21,7 +21,7 @@ func init() {
 		Methods: []string{trace.MMix, trace.MInverse, trace.MNSortMConc, trace.MNConcMSort, trace.MNConcMConc, trace.MSelMix, trace.MSelInverse,
 			trace.MSelNSortMConc, trace.MSelNConcMSort, trace.MSelNConcMConc, trace.MPoolEM, trace.MPoolEMSel},
 		Clauses:  trace.Clauses(trace.ClBarrier, trace.ClWindow, trace.ClOnce, trace.ClOrder, trace.ClPolicy, trace.ClSeq, trace.ClLate),
-		Gen:      trace.GenOpts{MinRules: 2, MaxRules: 10, FailProb: 0.2, RetProb: 0.2, WideSal: true},
+		Gen:      trace.GenOpts{MinRules: 1, MaxRules: 10, FailProb: 0.2, RetProb: 0.2, WideSal: true},
 		Calls:    8,
 		PoolProb: 0.35,
 		Holds:    true,
@@ -47,7 +47,7 @@ func init() {
 		Methods: []string{trace.MSel, trace.MSelCtl, trace.MSelCtlGiven, trace.MSelCtlStop, trace.MSelCtlStopGiven, trace.MSelConcurrent, trace.MSelMix,
 			trace.MSelInverse, trace.MSelNSortMConc, trace.MSelNConcMSort, trace.MSelNConcMConc, trace.MPoolEMSel, trace.MSelCtlGiven},
 		Clauses:      trace.Clauses(trace.ClSelect, trace.ClGiven, trace.ClOrder, trace.ClOnce, trace.ClBarrier, trace.ClWindow, trace.ClSeq, trace.ClLate),
-		Gen:          trace.GenOpts{MinRules: 2, MaxRules: 9, FailProb: 0.15, RetProb: 0.2, WideSal: true},
+		Gen:          trace.GenOpts{MinRules: 1, MaxRules: 9, FailProb: 0.15, RetProb: 0.2, WideSal: true},
 		Calls:        10,
 		PoolProb:     0.35,
 		Holds:        true,
